@@ -133,12 +133,15 @@ func runRound(e *env, sw *stressWorld, p roundPlan, stopMode bool) ([]map[string
 	var mu sync.Mutex
 	evs := []map[string]any{ev("reset", "", opRec{}, "", "", nil)}
 	evs[0]["plan"] = fmt.Sprintf("%v %v+%v delay=%dus stop=%v", p.InitKeys, p.Ops[0], p.Ops[1], p.DelayUs, stopMode)
-	if err := e.seed(p.Swamp, p.InitKeys); err != nil {
-		return nil, "seed: " + err.Error()
-	}
+	seedErr := e.seed(p.Swamp, p.InitKeys)
 	for i, k := range p.InitKeys {
 		sn := "s" + strconv.Itoa(i+1)
 		evs = append(evs, ev("call", sn, opRec{"set", k}, "v0", "", nil), ev("ret", sn, opRec{"set", k}, "", "ok", nil))
+	}
+	if sl, ok := seedErr.(*seedLoss); ok {
+		return append(evs, ev("reload", "", opRec{}, "", "", fullFile(sl.obs))), "" // judged by TLC like any other round
+	} else if seedErr != nil {
+		return nil, "seed: " + seedErr.Error()
 	}
 	var wg sync.WaitGroup
 	for i := 0; i < 2; i++ {
